@@ -111,6 +111,9 @@ func (s *PState) describe() string {
 	return strings.Join(parts, " ")
 }
 
+// SeenAll returns the event counters of this path (read-only).
+func (s *PState) SeenAll() map[string]int { return s.seen }
+
 // Seen reports how often the event occurred on this path.
 func (s *PState) Seen(ev string) int { return s.seen[ev] }
 
